@@ -57,11 +57,15 @@ Pays == [fam : Fams, owner : Keys, body : Bodies, oenc : {"canon"}]
         \cup [fam : {"peer"}, owner : Keys, body : {1}, oenc : {"alt"}] \cup {JunkPay}
 
 \* The signed pre-image.  "code": all three components, each delimited (injective, part B).
-Pre(d, t, p) ==
-  CASE Variant = "nodomain"  -> <<"*", t, p>>
-    [] Variant = "notype"    -> <<d, "*", p>>
-    [] Variant = "nopayload" -> <<d, t, JunkPay>>
-    [] OTHER                 -> <<d, t, p>>
+\* (every rule below takes the acceptance-rule variant v explicitly; the model's own rule is v = Variant =
+\* "code", the others are the deliberately broken rules whose wrong acceptances TLC reports per transition)
+PreA(v, d, t, p) ==
+  CASE v = "nodomain"  -> <<"*", t, p>>
+    [] v = "notype"    -> <<d, "*", p>>
+    [] v = "nopayload" -> <<d, t, JunkPay>>
+    [] OTHER           -> <<d, t, p>>
+Pre(d, t, p) == PreA(Variant, d, t, p)
+ProjM(v, m) == PreA(v, m[1], m[2], m[3])       \* what a signature made over m binds under rule v
 
 \* Sign(k, m) is the term [k, m]; BadSig is a bit string that is no signature of anything.
 Sig(k, d, t, p) == [k |-> k, m |-> Pre(d, t, p)]
@@ -70,10 +74,10 @@ BadSig == [k |-> NoKey, m |-> <<"-", "-", JunkPay>>]
 \* other encoding of the same term (the attacker's RE-ENCODE capability: DER / raw / compact / high-S ...).
 \* kenc likewise for the public key field ("alt" = a non-canonical serialisation of the same key).
 \* The axiom does not depend on the encoding; a decoder may refuse an "alt" encoding ("maybe").
-Verify(k, m, s, senc) ==
-  CASE Variant = "nokey"                   -> s.k # NoKey /\ s.m = m
-    [] Variant = "anyenc" /\ senc = "alt"  -> s.k # NoKey /\ s.m = m   \* broken: alt encodings skip the key
-    [] OTHER                               -> s.k = k /\ s.m = m        \* the signature axiom (part C)
+Verify(v, k, m, s, senc) ==
+  CASE v = "nokey"                   -> s.k # NoKey /\ s.m = m
+    [] v = "anyenc" /\ senc = "alt"  -> s.k # NoKey /\ s.m = m   \* broken: alt encodings skip the key
+    [] OTHER                         -> s.k = k /\ s.m = m        \* the signature axiom (part C)
 
 Garbage == [ok |-> FALSE, key |-> NoKey, kenc |-> "canon", typ |-> "empty", pay |-> JunkPay, sig |-> BadSig, senc |-> "lib"]
 Sealed(k, f, owner, body) ==
@@ -93,27 +97,34 @@ And3(a, b) == IF a = "no" \/ b = "no" THEN "no" ELSE IF a = "maybe" \/ b = "mayb
 B3(x) == IF x THEN "yes" ELSE "no"
 
 \* Envelope.validate(domain): "maybe" when an alternative encoding is involved (the decoder may refuse it)
-Valid(w, d) == IF ~(w.ok /\ Verify(w.key, Pre(d, w.typ, w.pay), w.sig, w.senc)) THEN "no"
-               ELSE IF w.kenc = "alt" \/ w.senc = "alt" THEN "maybe" ELSE "yes"
+ValidV(v, w, d) ==
+  IF ~(w.ok /\ Verify(v, w.key, PreA(v, d, w.typ, w.pay), [k |-> w.sig.k, m |-> ProjM(v, w.sig.m)], w.senc)) THEN "no"
+  ELSE IF w.kenc = "alt" \/ w.senc = "alt" THEN "maybe" ELSE "yes"
 
 \* record.ConsumeEnvelope(bytes, d): unmarshal, validate, registry lookup by payload type, unmarshal
-Untyped(w, d) == IF Valid(w, d) = "no" \/ w.typ \notin Fams THEN "no" ELSE And3(Valid(w, d), Parse(w.typ, w.pay))
+UntypedV(v, w, d) == IF ValidV(v, w, d) = "no" \/ w.typ \notin Fams THEN "no" ELSE And3(ValidV(v, w, d), Parse(w.typ, w.pay))
+Untyped(w, d) == UntypedV(Variant, w, d)
 \* record.ConsumeTypedEnvelope(bytes, rec of family f): validate with rec.Domain(); the payload type
 \* on the wire is NOT compared with rec.Codec() (documented: caller's responsibility)
-Typed(w, f) == And3(Valid(w, f), Parse(f, w.pay))
+TypedV(v, w, f) == And3(ValidV(v, w, f), Parse(f, w.pay))
 \* identify's pipeline: ConsumeEnvelope(bytes, peer-record domain); AddrBook.ConsumePeerRecord
 \* (record must be a *PeerRecord, rec.PeerID.MatchesPublicKey(envelope.PublicKey))
 \* (a look-alike of the signer's ID is NOT the signer's ID)
-OwnerOK(w) == \/ Variant = "noowner"
-              \/ w.pay.owner = w.key /\ (w.pay.oenc = "canon" \/ Variant = "lookalike")
-PeerStore(w) == And3(Untyped(w, "peer"), B3(w.typ = "peer" /\ OwnerOK(w)))
+OwnerOK(v, w) == \/ v = "noowner"
+                 \/ w.pay.owner = w.key /\ (w.pay.oenc = "canon" \/ v = "lookalike")
+PeerStoreV(v, w) == And3(UntypedV(v, w, "peer"), B3(w.typ = "peer" /\ OwnerOK(v, w)))
 \* relay client: ConsumeEnvelope(bytes, voucher domain); record must be a *ReservationVoucher
-Voucher(w) == And3(Untyped(w, "rsvp"), B3(w.typ = "rsvp"))
+VoucherV(v, w) == And3(UntypedV(v, w, "rsvp"), B3(w.typ = "rsvp"))
 
-Res(c, w) == CASE c.kind = "untyped" -> Untyped(w, c.d)
-               [] c.kind = "typed"   -> Typed(w, c.d)
-               [] c.kind = "voucher" -> Voucher(w)
-               [] OTHER              -> PeerStore(w)
+ResV(v, c, w) == CASE c.kind = "untyped" -> UntypedV(v, w, c.d)
+                   [] c.kind = "typed"   -> TypedV(v, w, c.d)
+                   [] c.kind = "voucher" -> VoucherV(v, w)
+                   [] OTHER              -> PeerStoreV(v, w)
+Res(c, w) == ResV(Variant, c, w)
+\* Deliberately broken acceptance rules (vacuity guards): domain / type / payload / key not bound by the
+\* signature, owner not bound by the store, alternative signature encodings not bound to the key, look-alike
+\* owner IDs taken for the real one.  Each must wrongly accept somewhere in the reachable graph.
+BrokenA == {"nodomain", "notype", "nopayload", "nokey", "noowner", "anyenc", "lookalike"}
 
 InitA ==
   \E f1 \in Fams, f2 \in Fams :
@@ -160,10 +171,15 @@ EditA ==
           Edit([st.wire EXCEPT ![f] = st.second[f], !.kenc = IF f = "key" THEN "canon" ELSE @,
                                !.senc = IF f = "sig" THEN "lib" ELSE @], "swap", [field |-> f], st.signed)
 
+Legit(c, w) ==
+  /\ Tuple(w.key, c.d, w.typ, w.pay) \in st.signed
+  /\ c.kind \in {"pmem", "pds"} => (w.pay.owner = w.key /\ w.pay.oenc = "canon")
 ConsumeA ==
   \E c \in Consumers :
     /\ UNCHANGED st
-    /\ op' = [name |-> "consume", kind |-> c.kind, d |-> c.d, acc |-> Res(c, st.wire)]
+    /\ op' = [name |-> "consume", kind |-> c.kind, d |-> c.d, acc |-> Res(c, st.wire),
+              \* the broken rules that would accept here something nobody sealed
+              brk |-> {v \in BrokenA : ResV(v, c, st.wire) # "no" /\ ~Legit(c, st.wire)}]
 
 NextA == EditA \/ ConsumeA
 
@@ -171,11 +187,7 @@ NextA == EditA \/ ConsumeA
 \* domain asked for and the reported type and payload; a peer store additionally binds the record's
 \* peer ID to the signing key.
 BindingA ==
-  st.part = "A" =>
-    \A c \in Consumers :
-      Res(c, st.wire) # "no" =>
-        /\ Tuple(st.wire.key, c.d, st.wire.typ, st.wire.pay) \in st.signed
-        /\ c.kind \in {"pmem", "pds"} => (st.wire.pay.owner = st.wire.key /\ st.wire.pay.oenc = "canon")
+  st.part = "A" => \A c \in Consumers : Res(c, st.wire) # "no" => Legit(c, st.wire)
 \* honest keys signed only what their holders sealed
 HonestA ==
   st.part = "A" =>
